@@ -51,6 +51,7 @@ var propertyConfigs = map[string]*propertyConfig{
 			"Mul with a ciphertext operand (BGV style, no relinearisation; receiver distinct or equal to either operand): the degree-2 tensor (a0*b0, a0*b1 + a1*b0, a1*b1), every component times the plaintext modulus T (the evaluator's RNS scalar, named, ASSUMED in double Montgomery form), out of the Montgomery domain, output of degree 2.  " +
 			"With a PLAINTEXT operand at equal scales: the plaintext takes part in the first component only (Add / Sub) or multiplies every component, times T (Mul); the other components are copied.  " +
 			"MulRelin: the third component of the tensor goes through the gadget product with the key set's relinearisation key (both NAMED), degree 1; without a key set it returns an error in both styles and dereferences nothing nil (finding F43).  A product of operands of total degree 3 is refused.  MulThenAdd with a scalar: the accumulator keeps its degree and ends at the common level (finding F44).  Signed machine scalars (int64): their conversion never wraps (obligation kind overflow).  A receiver of higher degree than both operands gets the missing component cleared (finding F42).  " +
+			"RotateColumns / RotateRows: the automorphism of the ciphertext (contract of C04) for the Galois element of the rotation (NAMED uf_galel(k); that it is 5^k is property C11), respectively for the element of order two.  " +
 			"Rescale: on success the receiver has the degree of the input whatever degree it had (finding F40), the input's flags, the input's scale divided by the consumed prime (named), rounded quotients of the input's components (named), no index is out of range (obligation kind index), and an input at level 0 is refused with an error.",
 		Assumptions: append(append([]string{}, engineBAssumptions...), "scales are compared and converted by TRUSTED leaves whose outcome is NAMED by uninterpreted functions of the scale's contents (cmpval, uf_scale64, uf_msb0/1): the contracts say which branch a comparison selects and which factors are applied, not what the factors are",
 			"Ring.MulScalar, MulScalarThenAdd / ThenSub, DivRoundByLastModulusNTT, Scale.Mul / Div and the big-integer scalar products are TRUSTED abstract leaves (ring-element reading of the row-level contracts of C01 / C02)",
@@ -63,6 +64,7 @@ var propertyConfigs = map[string]*propertyConfig{
 			"Add / Sub with a real scalar: the output records the scale of the input whatever the receiver held (finding F34), has the degree of the input, and the untouched components are copied.  " +
 			"Mul of two degree-1 ciphertexts without relinearisation: the degree-2 tensor (a0*b0, a0*b1 + a1*b0, a1*b1) out of the Montgomery domain, receiver distinct or equal to either operand.  " +
 			"With a PLAINTEXT operand at equal scales: the plaintext takes part in the first component only (Add / Sub) or multiplies every component (Mul).  MulRelin: the third component of the tensor goes through the gadget product with the key set's relinearisation key (both NAMED), degree 1.  MulThenAdd with a scalar: the accumulator keeps its degree and ends at the common level (finding F44).  A product of operands of total degree 3 is refused.  " +
+			"Rotate / Conjugate: the automorphism of the ciphertext (contract of C04) for the Galois element of the rotation (NAMED uf_galel(k); that it is 5^k is property C11), respectively for the element of order two.  " +
 			"Rescale: on success the receiver has the degree and flags of the input whatever it held, every index is in range (obligation kind index), and an input at level 0 is refused with an error.",
 		Assumptions: append(append([]string{}, engineBAssumptions...), "the outcome of comparing two scales is NAMED (cmpval), not interpreted: the contracts cover the branch for equal scales",
 			"the conversion of a scalar to RNS form (bigComplexToRNSScalar), the row operation with a scalar (evaluateWithScalar), Scale.Mul / Div and the rounded divisions are TRUSTED abstract leaves",
@@ -82,10 +84,10 @@ var propertyConfigs = map[string]*propertyConfig{
 		ID: "C04", Packages: []string{"./..."}, Level: "proof",
 		Explain: "Per-call structure of key switching (one call, same ring degree).  rlwe.Evaluator.ApplyEvaluationKey, in place and out of place: the output is (c0 + gp0, gp1) where (gp0, gp1) is the gadget product of the input's SECOND component with the given key (NAMED uf_gp0 / uf_gp1: functions of the ring element and of the gadget ciphertext), and carries the input's flags and scale.  " +
 			"Relinearize (receiver of degree 1 or 2, or the input): (c0 + gp0, c1 + gp1) with the gadget product of the THIRD component and the relinearisation key of the key set (NAMED uf_rlk), degree 1.  " +
-			"Automorphism (coefficient domain): the automorphism (NAMED uf_autom) of both components of the key switch with the Galois key of the element (NAMED uf_gk); CheckAndGetGaloisKey hands out that key.  Every one of them leaves the output at the COMMON level of input and receiver (finding F46; Element.Resize carries the number of rows).  " +
+			"Automorphism, in the coefficient domain and in the NTT domain: the automorphism of BOTH components of the key switch with the Galois key of the element (NAMED uf_gk) - by the element (uf_autom), respectively with the index table the evaluator's map holds for it (uf_automidx; maps with integer keys are modelled); CheckAndGetGaloisKey hands out that key.  Every one of them leaves the output at the COMMON level of input and receiver (finding F46; Element.Resize carries the number of rows).  " +
 			"Typed-AST engine: rlwe.Parameters.BaseTwoDecompositionVectorSize gives every modulus enough power-of-two digits to cover its bit length, base[k] * w >= bitlen(q_k) (finding F50; Lean lemma div_ceil).",
 		Assumptions: append(append([]string{}, engineBAssumptions...), "the gadget product, the automorphism of a ring element and the key-set accessors are TRUSTED leaves that write their outputs only; what they compute is named, not interpreted (digit arithmetic: contracts of C02; automorphism tables: C01 / C11)",
-			"NOT decided: that the result decrypts to the transformed plaintext, every noise bound, switching between ring degrees, the NTT branch of Automorphism, the hoisted and lazy variants, extract / repack, compressed keys"),
+			"NOT decided: that the result decrypts to the transformed plaintext, every noise bound, switching between ring degrees, the hoisted and lazy variants, extract / repack, compressed keys"),
 		Trusted:     stdTrusted, Simple: copyAndLanes("C04"),
 	},
 	"C14": {
